@@ -184,8 +184,15 @@ class Monitor:
         msg = most_specific_violation(disp, types, func)
         if msg == "multi":
             self.multi_match += 1
-        elif msg and len(self.violations) < 3:
-            self.violations.append({"invariant": "winner-not-most-specific", "message": "%s%s: %s" % (lab, list(canon[1]), msg), "fingerprint": "winner-not-most-specific"})
+        elif msg == "ambiguous":
+            self.ambiguous = getattr(self, "ambiguous", 0) + 1
+        elif msg and len(self.violations) < 6:
+            fp = "winner-not-most-specific"
+            if msg.startswith("[empty-variadic-tail-vs-fixed]"):
+                fp += "|empty-variadic-tail-vs-fixed"
+                if any(v["fingerprint"] == fp for v in self.violations):
+                    return
+            self.violations.append({"invariant": "winner-not-most-specific", "message": "%s%s: %s" % (lab, list(canon[1]), msg), "fingerprint": fp})
 
 
 _INTERP_LABELS = {}
@@ -224,11 +231,35 @@ def sig_matches(types, sig):
     return len(types) == len(sig) and all(issubclass(t, s) for t, s in zip(types, sig))
 
 
+def _at_least_as_specific(w, m, n):
+    """Is signature w at least as specific as m for calls with n arguments?
+    Variadic tails are expanded to n positions, then compared position by
+    position with issubclass (for equal fixed arities this is
+    multipledispatch.conflict.supercedes; across a variadic and a fixed
+    signature supercedes is incomplete, e.g. (Funsor, [X]) vs (object,))."""
+    from multipledispatch.variadic import isvariadic
+
+    def expand(sig):
+        if sig and isvariadic(sig[-1]):
+            return tuple(sig[:-1]) + (sig[-1],) * (n - len(sig) + 1)
+        return tuple(sig)
+
+    W, M = expand(w), expand(m)
+    if len(W) != n or len(M) != n:
+        return False
+    for a, b in zip(W, M):
+        alts = a.variadic_type if isvariadic(a) else (a,)
+        if not all(issubclass(x, b) for x in alts):
+            return False
+    return True
+
+
 def most_specific_violation(disp, types, func):
     """None if ok, 'multi' if ok with several matches, else a message."""
-    from multipledispatch.conflict import supercedes
-
     from sim import seams
+
+    def supercedes(w, m):
+        return _at_least_as_specific(w, m, len(types))
 
     matching = [sig for sig in disp.funcs if sig_matches(types, sig)]
     if not matching:
@@ -241,8 +272,21 @@ def most_specific_violation(disp, types, func):
     for w in winners:
         if all(supercedes(w, m) for m in matching):
             return "multi" if len(matching) > 1 else None
+    if not any(all(supercedes(c, m) for m in matching) for c in matching):
+        # the matching patterns overlap without any of them being below all others
+        # (an ambiguous registry): the property presupposes a most specific pattern
+        return "ambiguous"
     better = [m for m in matching if not any(supercedes(w, m) for w in winners)]
-    return "the rule that runs (%s, pattern %s) is not at least as specific as the matching pattern %s (%s)" % (
+    from multipledispatch.variadic import isvariadic
+
+    n = len(types)
+    w0, b0 = winners[0], better[0]
+    tag = ""
+    if (w0 and isvariadic(w0[-1]) and len(w0) - 1 == n and len(b0) == n and not isvariadic(b0[-1])) or (
+        b0 and isvariadic(b0[-1]) and len(b0) - 1 == n and len(w0) == n and not isvariadic(w0[-1])
+    ):
+        tag = "[empty-variadic-tail-vs-fixed] "
+    return tag + "the rule that runs (%s, pattern %s) is not at least as specific as the matching pattern %s (%s)" % (
         seams.rule_name(func),
         _sig(winners[0]),
         _sig(better[0]),
@@ -482,7 +526,7 @@ def synthesised_tuples_check(mon, r, stats):
                     continue
                 n += 1
                 msg = most_specific_violation(disp, types, func)
-                if msg and msg != "multi":
+                if msg and msg not in ("multi", "ambiguous"):
                     stats["synthesised_dispatches"] = n
                     return {
                         "invariant": "winner-not-most-specific",
@@ -642,7 +686,10 @@ def member(obj, tp):
         if not args:
             return True
         vals = getattr(obj, "_ast_values", None)
-        if vals is None or len(vals) != len(args):
+        if vals is None:
+            # an instance of a user generic class: its own class carries the parameters
+            return ref_sub(type(obj), tp) if isinstance(type(obj), GenericTypeMeta) else None
+        if len(vals) != len(args):
             return None
         res = [member(v, a) for v, a in zip(vals, args)]
         return None if any(r is None for r in res) else all(res)
@@ -759,6 +806,11 @@ def _userland_session(payload):
     class UKey:
         pass
 
+    from funsor.typing import GenericTypeMeta
+
+    class Box(metaclass=GenericTypeMeta):  # a user generic class with a free number of parameters
+        pass
+
     patterns = [
         ("any", (object,)),
         ("fs", (frozenset,)),
@@ -791,6 +843,15 @@ def _userland_session(payload):
         ("fs_u", (typing.FrozenSet[typing.Union[Variable, Number]],)),
         ("fs_tup", (typing.FrozenSet[tuple],)),
         ("fs_tupint", (typing.FrozenSet[typing.Tuple[int, int]],)),
+        ("box", (Box,)),
+        ("box_i", (Box[int],)),
+        ("box_is", (Box[int, str],)),
+        ("box_os", (Box[object, str],)),
+        ("box_ib", (Box[int, bytes],)),
+        ("f_var_nt", (Funsor, [Number, funsor.Tensor])),
+        ("f_var_f", (Funsor, [Funsor])),
+        ("t_var_n", (funsor.Tensor, [Number])),
+        ("var_is", ([int, str],)),
     ]
 
     def make(subset=None):
@@ -880,7 +941,9 @@ def _userland_session(payload):
     for _ in range(payload.get("containers", 40)):
         elems = [r.choice(atoms) for _ in range(r.randint(1, 4))]
         singles.append(frozenset(elems) if r.random() < 0.7 else tuple(elems))
+    singles += [Box(), Box[int](), Box[int, str](), Box[int, bytes](), Box[str, str]()]
     argsets = [(a,) for a in singles]
+    argsets += [(t, Number(1)), (t, Number(1), t), (t, t, t), (x, Number(1), Number(2.5)), (t, Number(1), x), (Number(1), t, Number(2)), (1, "a", 2), (1, 2, 3), (1, 2.5)]
     for a in (t, Number(2.0), x):
         for b in (frozenset(), frozenset({i2}), frozenset({x}), frozenset({"q"}), (), (1, 2), ("a",)):
             argsets.append((a, b))
@@ -896,12 +959,18 @@ def _userland_session(payload):
     comps = []
     for name, types in patterns:
         for t in types:
-            comps.extend(t if isinstance(t, tuple) else [t])
+            comps.extend(t if isinstance(t, (tuple, list)) else [t])
     objs = singles + [frozenset({j3}), frozenset({x, Variable("y", funsor.Real)}), ((1, 2), (3,)), (i2, x), (t,)]
     bypattern = dict(("user_rule_" + name, types) for name, types in patterns)
 
     def contains(types, args):
         """Reference: are the arguments members of the pattern? (None: not modelled)"""
+        if types and isinstance(types[-1], list):
+            # variadic tail: every remaining argument is a member of one of the listed classes
+            head, tail = types[:-1], tuple(types[-1])
+            if len(args) < len(head):
+                return False
+            types = tuple(head) + (tail,) * (len(args) - len(head))
         if len(types) != len(args):
             return False
         res = []
@@ -915,7 +984,7 @@ def _userland_session(payload):
 
     def below(p, q):
         """Reference: is pattern p at least as specific as q? (single alternatives only)"""
-        if len(p) != len(q) or any(isinstance(t, tuple) for t in p + q):
+        if any(isinstance(t, (tuple, list)) for t in tuple(p) + tuple(q)) or len(p) != len(q):
             return None
         res = [ref_sub(a, b) for a, b in zip(p, q)]
         if any(x is False for x in res):
@@ -1032,7 +1101,7 @@ def _userland_session(payload):
     subsets = []
     for i in range(len(patterns)):
         for j in range(i + 1, len(patterns)):
-            if len(patterns[i][1]) == len(patterns[j][1]):
+            if len(patterns[i][1]) == len(patterns[j][1]) or any(isinstance(t, list) for t in patterns[i][1] + patterns[j][1]):
                 subsets.append([patterns[i], patterns[j]])
                 subsets.append([patterns[j], patterns[i]])
     for _ in range(payload.get("subsets", 60)):
@@ -1042,8 +1111,9 @@ def _userland_session(payload):
     for sub in subsets:
         reg = make(sub)
         arity = {len(types) for _, types in sub}
+        variadic = any(isinstance(t, list) for _, types in sub for t in types)
         for args in argsets:
-            if len(args) not in arity:
+            if len(args) not in arity and not variadic:
                 continue
             try:
                 fn = reg.dispatch(UKey, *args)
@@ -1071,8 +1141,14 @@ def _userland_session(payload):
                 )
     violations.extend(v for v in mon.violations if v["invariant"] == "winner-not-most-specific")
     mon.uninstall()
+    seen_fp = set()
+    distinct = []
+    for v in violations:
+        if v["fingerprint"] not in seen_fp:
+            seen_fp.add(v["fingerprint"])
+            distinct.append(v)
     return {
-        "violations": violations[:1],
+        "violations": distinct[:4],
         "stats": {"runs": 0, "dispatch_calls": mon.calls, "userland_dispatches": dispatches, "userland_argument_tuples": len(argsets), "membership_checks": membership_checks, "self_type_checks": self_type_checks, "inhomogeneous_sets_refused": refused, "reference_model_pairs": model_pairs, "small_registries": len(subsets), "small_registry_dispatches": small, "faults": faults},
         "table": {},
     }
